@@ -374,11 +374,18 @@ def observe_jvec(case, gridding="same"):
         sm = case.simulation(case.m0 - h*v)
         sm.compute()
         fd = (sp.data.synthetic.data - sm.data.synthetic.data)/(2*h)
-        scale = np.abs(fd).max()
-        if not np.abs(jv - fd).max() <= 1e-4*scale:
-            notes.append(f"J v differs from the central difference of the "
-                         f"data: max |diff| = {np.abs(jv - fd).max():.3e}, "
-                         f"max |fd| = {scale:.3e}")
+        # (a receiver in an outermost cell has no response: NaN in both)
+        ff = np.isfinite(fd)
+        if not np.array_equal(ff, np.isfinite(jv)):
+            notes.append("J v and the data are not finite at the same "
+                         "entries")
+        elif ff.any():
+            scale = np.abs(fd[ff]).max()
+            if not np.abs(jv[ff] - fd[ff]).max() <= 1e-4*scale:
+                notes.append(
+                    f"J v differs from the central difference of the data: "
+                    f"max |diff| = {np.abs(jv[ff] - fd[ff]).max():.3e}, "
+                    f"max |fd| = {scale:.3e}")
     if gridding == "same":
         # the same Simulation object after the model was edited in place and
         # the results were cleaned: J v is the derivative at the NEW model
@@ -392,11 +399,11 @@ def observe_jvec(case, gridding="same"):
         sm = case.simulation(m1 - h*v)
         sm.compute()
         fd1 = (sp.data.synthetic.data - sm.data.synthetic.data)/(2*h)
-        if not np.abs(jv1 - fd1).max() <= 1e-4*np.abs(fd1).max():
+        f1 = np.isfinite(fd1)
+        if not np.array_equal(f1, np.isfinite(jv1)) or (f1.any() and not
+                np.abs(jv1[f1] - fd1[f1]).max() <= 1e-4*np.abs(fd1[f1]).max()):
             notes.append("after an in-place model update and clean: J v is "
-                         "not the derivative of the data at the new model "
-                         f"(max |diff| = {np.abs(jv1 - fd1).max():.3e}, max "
-                         f"|fd| = {np.abs(fd1).max():.3e})")
+                         "not the derivative of the data at the new model")
         set_model(sim, case, case.m0)
         sim.clean('computed')
         _ = sim.misfit
@@ -408,7 +415,7 @@ def observe_jvec(case, gridding="same"):
                  sim.data.observed.data, 0.0))
     jtw = np.asarray(sim.jtvec(w)).reshape(case.m0.shape)
     fin = np.isfinite(sim.data.observed.data) & np.isfinite(
-        sim.data.weights.data)
+        sim.data.weights.data) & np.isfinite(jv)
     lhs = float(np.real(np.sum(np.conj(w[fin])*jv[fin])))
     rhs = float(np.sum(jtw*v))
     if not abs(lhs - rhs) <= 1e-6*max(abs(lhs), abs(rhs), 1e-300):
